@@ -143,7 +143,7 @@ impl Property for C18 {
         let exprs = expr_options(&case.opts);
         let kind: &str;
         // choose a corruption; fall back to one that is always possible
-        let choice = rng.below(24);
+        let choice = rng.below(26);
         let fresh_position = |rng: &mut Rng, expr: &str| -> Vec<String> {
             match rng.below(6) {
                 0 => vec![format!("--filter={expr}")],
@@ -308,6 +308,14 @@ impl Property for C18 {
                 forbids.push("--choose".into());
                 forbids.push("-c".into());
                 kind = "text-headers-without-select";
+            }
+            24 | 25 => {
+                // an index step that lost its digits: .arr#0 cut right after the #
+                let e = *rng.pick(&[".arr#", ".obj.a#", "^.arr#", ".arr#0#"]);
+                let o = fresh_position(rng, e);
+                needs.push(o.last().unwrap().clone());
+                replace_or_add(&mut case, o);
+                kind = "dangling-index";
             }
             16 if !exprs.is_empty() => {
                 // truncation to nothing: the expression is cut to length zero
